@@ -13,7 +13,7 @@ import Mathlib.Data.List.Range
 import Mathlib.Tactic.Ring
 
 namespace AbtemVerif.Props.C10
-open AbtemVerif.Build
+open AbtemVerif.Build AbtemVerif.Gen.Build
 
 /-! ### helper lemmas -/
 
@@ -320,7 +320,7 @@ theorem buildEager_rows {V T} (ts : List T) (eps : List Int) (blocks : List Nat)
   obtain ⟨h1, h2⟩ := pySlice_window ts a b hab hb
   unfold buildEager
   have h3 : (ts.extract a b).length = b - a := h1 ▸ h2
-  simp only [Option.getD_some, hneg, if_false, hw, hrows, h1, h3, ne_eq, not_true_eq_false]
+  simp only [Option.getD_some, eagerWidth, hneg, if_false, hw, hrows, h1, h3, ne_eq, not_true_eq_false]
   rfl
 
 lemma lazyBlockRow_eq {V T} (ts : List T) (eps : List Int) (slicesOf : Nat → Except String (List (Slice V T)))
@@ -331,10 +331,13 @@ lemma lazyBlockRow_eq {V T} (ts : List T) (eps : List Int) (slicesOf : Nat → E
   have hneg : ¬ ((b : Int) - (a : Int) < 0) := by omega
   have he : eagerRow (b - a) (fun _ => slicesOf c) 0 = eagerRow (b - a) slicesOf c := rfl
   unfold lazyBlockRow buildEager
-  simp only [Option.getD_some, hneg, if_false, List.mapM_cons, List.mapM_nil, hw, h2, he, ne_eq, not_true_eq_false]
+  simp only [Option.getD_some, eagerWidth, hneg, if_false, List.mapM_cons, List.mapM_nil, hw, h2, he, ne_eq, not_true_eq_false]
   cases hs : eagerRow (b - a) slicesOf c with
   | error e => rfl
   | ok row => rfl
+
+/-- the eager build allocates, and the lazy build declares, the same number of slices (generated expressions) -/
+theorem eager_lazy_width_agree (first last : Int) : eagerWidth first last = lazyWidth first last := rfl
 
 /-- **eager = lazy** (fixes 53ec6279, 41d29c48): for every window `a ≤ b ≤ n`, every number of ensemble blocks and every
 per-block slice generator — including generators that fail — the lazy build (one task per block, assembled by block
@@ -348,7 +351,7 @@ theorem build_eager_eq_lazy {V T} (ts : List T) (eps : List Int) (blocks : List 
   have hlen : ((pySlice ts a (b : Int)).length : Int) = (b : Int) - (a : Int) := by rw [h2]; omega
   have hc : ((b - a : Nat) : Int) = (b : Int) - (a : Int) := by omega
   unfold buildLazy buildEager
-  simp only [Option.getD_some, ne_eq, not_true_eq_false, if_false, hneg, hw, h2, hc]
+  simp only [Option.getD_some, eagerWidth, lazyWidth, ne_eq, not_true_eq_false, if_false, hneg, hw, h2, hc]
   rw [mapM_congr' blocks _ _ (fun c _ => lazyBlockRow_eq ts eps slicesOf a b hab hb c)]
 
 /-- **build of a window = window of the full build** for atoms-based potential ensembles: row `c` of
